@@ -9,8 +9,10 @@ META = ['woz2:5.25in', 'woz1:5.25in', '2mg-do:5.25in', 'imd:8in', 'td0:8in', 'ni
 
 FAT_REGIONS = [(0, 64), (512, 16)]
 FIELD_SWEEPS = [('fat', 'img:5.25in-ibm-ssdd8', FAT_REGIONS), ('fat', 'img:5.25in-ibm-ssdd9', FAT_REGIONS), ('fat', 'img:5.25in-ibm-dsdd8', FAT_REGIONS),
-                ('fat', 'img:5.25in-ibm-dsdd9', FAT_REGIONS + [(5 * 512, 32)]), ('fat', 'img:3.5in-ibm-720', FAT_REGIONS), ('fat', 'img:3.5in-ibm-1440', FAT_REGIONS),
-                ('prodos', 'po:5.25in', [(1024, 96), (6 * 512, 16)]), ('pascal', 'po:5.25in', [(1024, 64)]),
+                ('fat', 'img:5.25in-ibm-dsdd9', FAT_REGIONS + [(5 * 512, 160)]), ('fat', 'img:3.5in-ibm-720', FAT_REGIONS), ('fat', 'img:3.5in-ibm-1440', FAT_REGIONS),
+                ('prodos', 'po:5.25in', [(1024, 96), (6 * 512, 16)]), ('pascal', 'po:5.25in', [(1024, 160)]),
+                # chunk headers of a WOZ2 file (INFO, TMAP, TRKS: identifier and size)
+                ('dos33', 'woz2:5.25in', [(12, 8), (80, 8), (248, 8)]), ('prodos', 'woz2:3.5in-ss', [(248, 8)]),
                 ('dos33', 'do:5.25in', [(17 * 4096, 64), (17 * 4096 + 15 * 256, 48)]), ('cpm2', 'do:5.25in', [(3 * 4096, 64)])]
 
 MORE_SWEEPS = [('prodos', 'po:3.5in-ss', [(1024, 2048)]), ('prodos', 'po:5.25in', [(1024, 2048), (6 * 512, 64)]), ('pascal', 'po:5.25in', [(1024, 2048)]),
@@ -113,6 +115,8 @@ def run(ctx, model_ok=True):
     # IMD track records with the optional cylinder and head maps (a2kit writes none or one of them): whole and truncated everywhere
     for fs, lab in [('cpm2', 'imd:8in'), ('fat', 'imd:5.25in-ibm-dsdd9'), ('cpm2', 'imd:5.25in-kay4')][:(2 if quick else 3)]:
         lines.append(f"malform m{k} imdmaps {rng.randrange(1 << 30)} {fs} {lab}"); k += 1
+    for fs in ['dos3x', 'prodos', 'pascal', 'cpm', 'fat']:
+        lines.append(f"malform m{k} jsonfields 0 {fs}"); k += 1
     for proc in range(4):
         for mx in range(4):
             lines.append(f"dasmsweep s{k} {proc} {mx} {[0, 768, 65280][(proc + mx) % 3]}"); k += 1
